@@ -8,7 +8,7 @@
    Loops, conditionals, routines, zones and matrix blocks are outside this theorem (they are
    covered by the oracle and correspondence runs). *)
 From Coq Require Import ZArith String List Bool Lia.
-From Bardolph Require Import Gen.Codes Lang.Value Lang.Instr Lang.Loader Lang.World Lang.Units0 Lang.Regs Lang.Devices Lang.Scope
+From Bardolph Require Import Time.TimePattern Gen.Codes Lang.Value Lang.Instr Lang.Loader Lang.World Lang.Units0 Lang.Regs Lang.Devices Lang.Scope
   Lang.Machine Lang.Syntax Lang.Sem Lang.CodeGen Lang.ExprCompile.
 Open Scope string_scope.
 Open Scope list_scope.
@@ -714,6 +714,104 @@ Proof.
   destruct (wait_sim im ss s s1 Hsim Hf Ew) as (evs & Hst & Hs & Ht).
   exists 1%nat, (advance s), evs. split; [exact Hst|]. split; [exact Hs|]. split; [reflexivity|]. split; [reflexivity|exact Ht].
 Qed.
+
+(* ---- time at ---- *)
+Definition pat_of (t : time_ref) : option tp :=
+  match t with TPat _ q => Some q | TMacro m => match macro mt m with VTime q => Some q | _ => None end end.
+Definition pat_param (t : time_ref) : param := match t with TPat _ p => PTime p | TMacro m => macro_param mt m end.
+Definition is_pat (t : time_ref) : bool := match pat_of t with Some _ => true | None => false end.
+Definition pats_of (r : list time_ref) : list tp := flat_map (fun t => match pat_of t with Some q => [q] | None => [] end) r.
+(* the patterns of `time at p or q ...`: literals, or constants defined as patterns *)
+Definition simple_times (ps : list time_ref) : bool := match ps with [] => false | _ => forallb is_pat ps end.
+
+Lemma pat_param_of t q : pat_of t = Some q -> pat_param t = PTime q.
+Proof.
+  destruct t as [x p|m]; cbn [pat_of pat_param]; [intros H; injection H as <-; reflexivity|].
+  unfold macro_param. destruct (macro mt m); try discriminate. intros H; injection H as <-. reflexivity.
+Qed.
+Lemma rf_set_set rf r a b : rf_set (rf_set rf r a) r b = rf_set rf r b.
+Proof.
+  induction rf as [|[r' v'] t IH]; cbn [rf_set]; [rewrite register_eqb_refl; reflexivity|].
+  destruct (register_eqb r r') eqn:E; cbn [rf_set]; [rewrite register_eqb_refl; reflexivity|]. rewrite E, IH. reflexivity.
+Qed.
+Lemma rf_set_get rf r v : rf_get rf r = Some v -> rf_set rf r v = rf.
+Proof.
+  induction rf as [|[r' v'] t IH]; cbn [rf_set rf_get]; [discriminate|].
+  destruct (register_eqb r r') eqn:E; [apply register_eqb_eq in E; subst r'; intros H; injection H as <-; reflexivity|].
+  intros H. rewrite (IH H). reflexivity.
+Qed.
+Lemma s_with_regs_same ss : s_with_regs ss (s_regs ss) = ss.
+Proof. destruct ss; reflexivity. Qed.
+Lemma s_with_regs_twice ss a b : s_with_regs (s_with_regs ss a) b = s_with_regs ss b.
+Proof. destruct ss; reflexivity. Qed.
+Lemma exec_timeat f ss ps : Sem.exec rt mt (S f) false ss (STimeAt ps) =
+  match map pat_of ps with
+  | Some p :: rest =>
+      if forallb (fun o : option tp => match o with Some _ => true | None => false end) rest
+      then ROk SigNormal (s_with_regs ss (rf_set (s_regs ss) R_TIME (VTime (tp_union_all p (flat_map (fun o : option tp => match o with Some q => [q] | None => [] end) rest)))))
+      else RErr (EInternal "time pattern expected") ss
+  | _ => RErr (EInternal "time pattern expected") ss
+  end.
+Proof. reflexivity. Qed.
+Lemma forallb_pats r : forallb (fun o : option tp => match o with Some _ => true | None => false end) (map pat_of r) = forallb is_pat r.
+Proof. induction r as [|t r IH]; [reflexivity|]. cbn [map forallb]. rewrite IH. reflexivity. Qed.
+Lemma flat_map_pats r : flat_map (fun o : option tp => match o with Some q => [q] | None => [] end) (map pat_of r) = pats_of r.
+Proof. induction r as [|t r IH]; [reflexivity|]. unfold pats_of in *. cbn [map flat_map]. rewrite IH. reflexivity. Qed.
+
+(* TIME_PATTERN UNION q, one per further pattern *)
+Lemma time_unions im : forall r ss s cur, sim ss s -> rf_get (s_regs ss) R_TIME = Some (VTime cur) -> forallb is_pat r = true ->
+  code_at im (m_pc s) (map (fun q => I2 OC_TIME_PATTERN (PSetOp SO_UNION) (pat_param q)) r) ->
+  exists s', esteps (length r) im s = Some (s', []) /\
+             sim (s_with_regs ss (rf_set (s_regs ss) R_TIME (VTime (fold_left tp_union (pats_of r) cur)))) s' /\
+             m_pc s' = m_pc s + zlength r /\ (m_stack s', fr s') = (m_stack s, fr s).
+Proof.
+  induction r as [|t r IH]; intros ss s cur Hsim Hcur Hall Hc.
+  - exists s. split; [reflexivity|]. cbn [pats_of flat_map fold_left]. rewrite (rf_set_get _ _ _ Hcur), s_with_regs_same.
+    split; [exact Hsim|]. split; [unfold zlength; cbn; lia|reflexivity].
+  - cbn [forallb] in Hall. apply andb_true_iff in Hall. destruct Hall as [Ht Hr]. unfold is_pat in Ht.
+    destruct (pat_of t) as [q|] eqn:Eq; [|discriminate].
+    cbn [map code_at] in Hc. destruct Hc as [Hf Hc]. rewrite (pat_param_of t q Eq) in Hf.
+    set (x := VTime (tp_union cur q)).
+    set (s1 := put_vm s (DReg R_TIME) x 1).
+    set (ss1 := s_with_regs ss (rf_set (s_regs ss) R_TIME x)).
+    assert (E1 : esteps 1 im s = Some (s1, [])).
+    { apply (estep1 im s _ _ _ Hf). cbn [Machine.exec i_op i_p0 i_p1 I2]. unfold reg. rewrite (sim_get_reg ss s R_TIME Hsim eq_refl). unfold rreg. rewrite Hcur.
+      exact (lift_put s (DReg R_TIME) x eq_refl). }
+    assert (Hs1 : sim ss1 s1) by (apply sim_put_reg_visible; [exact Hsim|reflexivity]).
+    assert (Hcur1 : rf_get (s_regs ss1) R_TIME = Some (VTime (tp_union cur q))) by apply rf_get_set_same.
+    destruct (IH ss1 s1 (tp_union cur q) Hs1 Hcur1 Hr Hc) as (s' & E & Hs' & Hpc & Hsf).
+    exists s'. split; [change (length (t :: r)) with (1 + length r)%nat; replace (@nil event) with (@nil event ++ @nil event) by reflexivity; eapply esteps_app; eassumption|].
+    unfold ss1 in Hs'. rewrite s_with_regs_twice in Hs'.
+    assert (Hregs : s_regs (s_with_regs ss (rf_set (s_regs ss) R_TIME x)) = rf_set (s_regs ss) R_TIME x) by (destruct ss; reflexivity).
+    rewrite Hregs, rf_set_set in Hs'.
+    unfold pats_of. cbn [flat_map]. rewrite Eq. cbn [app fold_left]. fold (pats_of r).
+    split; [exact Hs'|]. split; [rewrite Hpc; unfold s1; cbn [put_vm m_pc]; unfold zlength; cbn [length]; lia|]. rewrite Hsf. reflexivity.
+Qed.
+
+Lemma sim_STimeAt ps im ss s ss' fuel : simple_times ps = true -> sim ss s -> code_at im (m_pc s) (c_stmt rt mt false None (STimeAt ps)) ->
+  Sem.exec rt mt fuel false ss (STimeAt ps) = ROk SigNormal ss' -> simulates im ss s ss' (c_stmt rt mt false None (STimeAt ps)).
+Proof.
+  intros Hp Hsim Hc He. destruct fuel as [|fuel]; [discriminate|]. rewrite exec_timeat in He.
+  destruct ps as [|t r]; [discriminate|]. cbn [simple_times forallb] in Hp. apply andb_true_iff in Hp. destruct Hp as [Ht Hr]. unfold is_pat in Ht.
+  destruct (pat_of t) as [p|] eqn:Ep; [|discriminate].
+  cbn [map] in He. rewrite Ep, forallb_pats, Hr, flat_map_pats in He. injection He as He. subst ss'.
+  change (c_stmt rt mt false None (STimeAt (t :: r))) with
+    (I2 OC_TIME_PATTERN (PSetOp SO_INIT) (pat_param t) :: map (fun q => I2 OC_TIME_PATTERN (PSetOp SO_UNION) (pat_param q)) r) in *.
+  cbn [code_at] in Hc. destruct Hc as [Hf Hc]. rewrite (pat_param_of t p Ep) in Hf.
+  set (s1 := put_vm s (DReg R_TIME) (VTime p) 1).
+  set (ss1 := s_with_regs ss (rf_set (s_regs ss) R_TIME (VTime p))).
+  assert (E1 : esteps 1 im s = Some (s1, [])).
+  { apply (estep1 im s _ _ _ Hf). cbn [Machine.exec i_op i_p0 i_p1 I2]. exact (lift_put s (DReg R_TIME) (VTime p) eq_refl). }
+  assert (Hs1 : sim ss1 s1) by (apply sim_put_reg_visible; [exact Hsim|reflexivity]).
+  assert (Hcur1 : rf_get (s_regs ss1) R_TIME = Some (VTime p)) by apply rf_get_set_same.
+  destruct (time_unions im r ss1 s1 p Hs1 Hcur1 Hr Hc) as (s' & E & Hs' & Hpc & Hsf).
+  unfold ss1 in Hs'. rewrite s_with_regs_twice in Hs'.
+  assert (Hregs : s_regs (s_with_regs ss (rf_set (s_regs ss) R_TIME (VTime p))) = rf_set (s_regs ss) R_TIME (VTime p)) by (destruct ss; reflexivity).
+  rewrite Hregs, rf_set_set in Hs'.
+  exists (1 + length r)%nat, s', ([] ++ []). split; [eapply esteps_app; eassumption|]. split; [exact Hs'|].
+  split; [rewrite Hpc; unfold s1; cbn [put_vm m_pc]; unfold zlength; cbn [length]; rewrite map_length; lia|]. split; [rewrite Hsf; reflexivity|].
+  rewrite app_nil_r. destruct ss; reflexivity.
+Qed.
 End Sim4.
 
 Section Sim5.
@@ -828,6 +926,13 @@ Proof. destruct on; reflexivity. Qed.
 Lemma exec_ops_all f ss (c : bool) : exec_ops rt mt (S f) false ss c OpAll =
   dev_step ss (if c then do_color_all (s_regs ss) (s_world ss) else do_power_all (s_regs ss) (s_world ss)).
 Proof. reflexivity. Qed.
+Lemma exec_ops_default f ss (c : bool) : exec_ops rt mt (S f) false ss c OpDefault =
+  dev_step ss (if c then do_color_default (s_regs ss) (s_world ss) else Err (EInternal "POWER with an operand it has no handler for")).
+Proof. reflexivity. Qed.
+Lemma c_ops_default op : c_ops rt mt false op OpDefault = [I2 OC_MOVEQ (POperand OD_DEFAULT) (PReg R_OPERAND); I0 op].
+Proof. reflexivity. Qed.
+Lemma raw_color_agree a b : agree a b -> rf_raw_color a = rf_raw_color b.
+Proof. intros H. unfold rf_raw_color. rewrite (unit_mode_agree a b H), (get_color_agree a b H). reflexivity. Qed.
 Lemma exec_ops_list f ss (c : bool) l : exec_ops rt mt (S f) false ss c (OpList l) = exec_oplist rt mt f false ss c l.
 Proof. reflexivity. Qed.
 Lemma exec_oplist_nil f ss (c : bool) : exec_oplist rt mt (S f) false ss c [] = ROk tt ss.
@@ -885,6 +990,64 @@ Lemma exec_cmd_all im s (c : bool) :
 Proof.
   intros Ho. destruct c; cbn [cmd_op Machine.exec i_op I0]; unfold cmd_color, cmd_power, reg, get_reg; rewrite Ho; reflexivity.
 Qed.
+
+(* ---- get ---- *)
+Lemma do_get_agree a b w x : agree a b -> regs_full b ->
+  match do_get b w x with
+  | Ok d => exists ra, do_get a w x = Ok (mkDev ra (d_world d) (d_events d)) /\ agree ra (d_regs d) /\ regs_full (d_regs d) /\
+                       rf_get ra R_DISC_FORWARD = rf_get a R_DISC_FORWARD
+  | Err e => do_get a w x = Err e
+  end.
+Proof.
+  intros H Hf. unfold do_get. destruct (as_name x) as [n|]; [|exists a; repeat split; assumption].
+  destruct (find_light w n) as [l|]; [|exists a; repeat split; assumption].
+  destruct (l_kind l); try (exists a; repeat split; assumption).
+  rewrite (unit_mode_agree a b H). destruct (rf_unit_mode b) as [m|e]; cbn [bind]; [|reflexivity].
+  destruct (assure_units m (map VInt (l_color l))) as [c|e]; cbn [bind]; [|reflexivity].
+  pose proof (store_color_agree a b c H Hf) as Hs. destruct (rf_store_color b c) as [rb|e]; [|rewrite Hs; reflexivity].
+  destruct Hs as (ra & Ha & Hag & Hfull). rewrite Ha. exists ra. split; [reflexivity|]. split; [exact Hag|]. split; [exact Hfull|].
+  exact (store_color_keeps a c ra R_DISC_FORWARD Ha I).
+Qed.
+
+Lemma exec_get f ss n : Sem.exec rt mt (S f) false ss (SGet n) =
+  (let* (x, s1) := eval_rval rt mt f false ss n in let* (_, s2) := dev_step s1 (do_get (s_regs s1) (s_world s1) x) in ROk SigNormal s2).
+Proof. reflexivity. Qed.
+
+Lemma sim_SGet n im ss s ss' fuel : plain_rval mt n = true -> sim ss s -> code_at im (m_pc s) (c_stmt rt mt false None (SGet n)) ->
+  Sem.exec rt mt fuel false ss (SGet n) = ROk SigNormal ss' -> simulates im ss s ss' (c_stmt rt mt false None (SGet n)).
+Proof.
+  intros Hp Hsim Hc He. destruct fuel as [|fuel]; [discriminate|]. rewrite exec_get in He.
+  change (c_stmt rt mt false None (SGet n)) with (c_rval rt mt n (DReg R_RESULT) ++ [I2 OC_MOVE (PReg R_RESULT) (PReg R_NAME); I0 OC_GET_COLOR]) in *.
+  apply code_at_app in Hc. destruct Hc as [Hcv Hct]. cbn [code_at] in Hct. destruct Hct as [Hf1 [Hf2 _]].
+  destruct (eval_rval rt mt fuel false ss n) as [x sa|e sa|sa] eqn:Ev; cbn [sbind] in He; try discriminate.
+  destruct (c_rval_runs rt mt n (DReg R_RESULT) Hp (plain_ok_result mt n Hp) im ss s x sa fuel Hsim Hcv Ev) as [Hsa [k0 Hn]]. subst sa.
+  set (k := zlength (c_rval rt mt n (DReg R_RESULT))) in *.
+  set (s1 := put_vm s (DReg R_RESULT) x k) in *.
+  assert (Hs1 : sim ss s1) by (apply sim_put_reg_hidden; [exact Hsim|reflexivity|reflexivity]).
+  set (s2 := put_vm s1 (DReg R_NAME) x 1).
+  assert (E2 : esteps 1 im s1 = Some (s2, [])).
+  { apply (estep1 im s1 _ _ _ Hf1). cbn [Machine.exec i_op i_p0 i_p1 I2].
+    assert (Hg : get_reg s1 R_RESULT = Ok x) by (unfold s1; cbn [put_vm get_reg m_regs]; rewrite rf_get_set_same; reflexivity).
+    rewrite Hg. cbn [bind]. exact (lift_put s1 (DReg R_NAME) x eq_refl). }
+  assert (Hs2 : sim ss s2) by (apply sim_put_reg_hidden; [exact Hs1|reflexivity|reflexivity]).
+  assert (Hname : reg s2 R_NAME = x) by (unfold reg, s2; cbn [put_vm get_reg m_regs]; rewrite rf_get_set_same; reflexivity).
+  pose proof (do_get_agree (m_regs s2) (s_regs ss) (s_world ss) x (sim_regs _ _ Hs2) (sim_full _ _ Hs2)) as Hag.
+  destruct (do_get (s_regs ss) (s_world ss) x) as [d|e] eqn:Ed; cbn [dev_step sbind] in He; [|discriminate].
+  injection He as He. subst ss'. destruct Hag as (ra & Ha & Hagr & Hfull & Hdisc).
+  set (s3 := advance (with_world (with_regs s2 ra) (d_world d))).
+  assert (E3 : esteps 1 im s2 = Some (s3, d_events d ++ [])).
+  { assert (Hf2' : fetch im (m_pc s2) = Some (I0 OC_GET_COLOR)).
+    { unfold s2, s1. cbn [put_vm m_pc]. fold k. replace (m_pc s + k + 1) with (m_pc s + k + Z.of_nat 1) by lia. exact Hf2. }
+    cbn [esteps]. rewrite Hf2'. cbn [Machine.exec i_op I0]. unfold cmd_get_color. rewrite Hname, (sim_world _ _ Hs2), Ha. reflexivity. }
+  exists (k0 + (1 + 1))%nat, s3, ([] ++ ([] ++ (d_events d ++ []))).
+  split; [eapply esteps_app; [exact Hn|eapply esteps_app; [exact E2|exact E3]]|].
+  destruct Hs2 as [Hr Hfu Hg Hfr Hl Hw Hu Hdf].
+  split.
+  { constructor; cbn [s3 advance with_pc with_world with_regs m_regs m_globals m_frames m_world m_unnamed s_regs s_globals s_locals s_world]; try assumption; try reflexivity.
+    rewrite Hdisc. exact Hdf. }
+  split; [unfold s3, s2, s1; cbn [advance with_pc with_world with_regs put_vm m_pc]; fold k; unfold zlength; rewrite app_length, Nat2Z.inj_add; cbn [length]; unfold k, zlength; lia|].
+  split; [reflexivity|]. cbn [app s_trace]. rewrite app_nil_r, rev_append_rev, rev_app_distr, rev_involutive. reflexivity.
+Qed.
 End Sim6.
 
 Section Sim7.
@@ -894,7 +1057,7 @@ Variable mt : mtable.
 Definition simple_name (n : nameref) : bool := match n with NStr _ | NVar _ => true | NMacro m => simple_value (macro mt m) end.
 Definition simple_opnd (o : opnd) : bool := match o with Target _ n => simple_name n | _ => false end.
 Definition simple_ops (ops : operands) : bool :=
-  match ops with OpAll => true | OpList l => forallb simple_opnd l | OpDefault => false end.
+  match ops with OpAll => true | OpList l => forallb simple_opnd l | OpDefault => true end.
 
 Lemma c_ops_all op : c_ops rt mt false op OpAll = [I2 OC_MOVEQ (POperand OD_ALL) (PReg R_OPERAND); I0 op].
 Proof. reflexivity. Qed.
@@ -1005,6 +1168,26 @@ Proof.
     + change 2%nat with (1 + 1)%nat. replace evs with ([] ++ evs) by reflexivity. eapply esteps_app; [exact E1|].
       apply (estep1 im s1 _ _ _ Hf2). rewrite (exec_cmd_all im s1 c Ho). exact Ho2.
     + split; [exact Hs2|]. split; [rewrite Hpc; unfold s1; cbn [put_vm m_pc]; unfold zlength; cbn; lia|]. split; [rewrite Hst; reflexivity|exact Htr].
+  - (* default: the colour goes to the default register *)
+    destruct fuel as [|fuel]; [discriminate|]. rewrite exec_ops_default in He. destruct c; [|discriminate].
+    rewrite c_ops_default in *. cbn [code_at] in Hc. destruct Hc as [Hf1 [Hf2 _]].
+    destruct (load_hidden im ss s (POperand OD_DEFAULT) R_OPERAND (VOperand OD_DEFAULT) Hsim eq_refl eq_refl eq_refl eq_refl Hf1) as [E1 Hs1].
+    set (s1 := put_vm s (DReg R_OPERAND) (VOperand OD_DEFAULT) 1) in *.
+    assert (Ho : rf_get (m_regs s1) R_OPERAND = Some (VOperand OD_DEFAULT)) by (unfold s1; cbn [put_vm m_regs]; apply rf_get_set_same).
+    unfold do_color_default in He.
+    destruct (rf_raw_color (s_regs ss)) as [rc|e] eqn:Erc; cbn [bind dev_step] in He; [|discriminate]. injection He as He. subst ss1.
+    set (s2 := advance (with_world (with_regs s1 (rf_set (m_regs s1) R_DEFAULT (VList rc))) (m_world s1))).
+    exists 2%nat, s2, ([] ++ []). split.
+    + change 2%nat with (1 + 1)%nat. eapply esteps_app; [exact E1|].
+      apply (estep1 im s1 _ _ _ Hf2). cbn [cmd_op Machine.exec i_op I0]. unfold cmd_color, reg, get_reg. rewrite Ho.
+      unfold do_color_default. rewrite (raw_color_agree _ _ (sim_regs _ _ Hs1)), Erc. reflexivity.
+    + destruct Hs1 as [Hr Hfu Hg Hfr Hl Hw Hu Hdf]. split.
+      { constructor; cbn [s2 advance with_pc with_world with_regs m_regs m_globals m_frames m_world m_unnamed d_regs d_world s_regs s_globals s_locals s_world]; try assumption.
+        - apply agree_set. exact Hr.
+        - apply regs_full_set. exact Hfu.
+        - rewrite rf_get_set_other; [exact Hdf|reflexivity]. }
+      split; [unfold s2, s1; cbn [advance with_pc with_world with_regs put_vm m_pc]; unfold zlength; cbn; lia|]. split; [reflexivity|].
+      cbn [s_trace d_events rev_append app]. rewrite app_nil_r. reflexivity.
   - (* list *)
     destruct fuel as [|fuel]; [discriminate|]. rewrite exec_ops_list in He.
     exact (sim_oplist rt mt c l Hs im ss s ss1 fuel Hsim Hc He).
@@ -1071,6 +1254,8 @@ Definition simple_atom (st : stmt) : bool :=
   | SReg r v => script_reg r && plain_rval mt v && ok_dest (DReg r) v
   | SAssign y v => plain_rval mt v && ok_dest (DVar y) v
   | SUnits _ | SWait => true
+  | SGet n => plain_rval mt n
+  | STimeAt ps => simple_times mt ps
   | SPrint (Some v) | SPrintln (Some v) => plain_rval mt v
   | SPrint None | SPrintln None | SDefineMacro _ _ => true     (* nothing / a line break / a constant: no value to compute *)
   | SSet ops | SOn ops | SOff ops => simple_ops mt ops
@@ -1079,7 +1264,7 @@ Definition simple_atom (st : stmt) : bool :=
 
 Definition atom_size (st : stmt) : nat :=
   match st with
-  | SReg _ v | SAssign _ v | SPrint (Some v) | SPrintln (Some v) => S (rheight v)
+  | SReg _ v | SAssign _ v | SPrint (Some v) | SPrintln (Some v) | SGet v => S (rheight v)
   | SSet ops | SOn ops | SOff ops => S (ops_size ops)
   | _ => 1%nat
   end.
@@ -1089,14 +1274,16 @@ Theorem atom_simulation st : simple_atom st = true ->
   Sem.exec rt mt fuel false ss st = ROk SigNormal ss' -> simulates im ss s ss' (c_stmt rt mt false None st).
 Proof.
   intros Hs im ss s ss' fuel Hsim Hc He.
-  destruct st as [r v|m|ops|ops|ops| | | | |y v| | | | | | | |[v|]|[v|]| |]; cbn [simple_atom] in Hs; try discriminate.
+  destruct st as [r v|m|ops|ops|ops| |n| |ps|y v| | | | | | | |[v|]|[v|]| |]; cbn [simple_atom] in Hs; try discriminate.
   - apply andb_true_iff in Hs. destruct Hs as [Hs Hd]. apply andb_true_iff in Hs. destruct Hs as [Hr Hp].
     exact (sim_SReg rt mt r v Hr Hp Hd im ss s ss' fuel Hsim Hc He).
   - exact (sim_SUnits rt mt m im ss s ss' fuel Hsim Hc He).
   - exact (sim_SSet rt mt ops im ss s ss' fuel Hs Hsim Hc He).
   - exact (sim_power rt mt true ops im ss s ss' fuel Hs Hsim Hc He).
   - exact (sim_power rt mt false ops im ss s ss' fuel Hs Hsim Hc He).
+  - exact (sim_SGet rt mt n im ss s ss' fuel Hs Hsim Hc He).
   - exact (sim_SWait rt mt im ss s ss' fuel Hsim Hc He).
+  - exact (sim_STimeAt rt mt ps im ss s ss' fuel Hs Hsim Hc He).
   - apply andb_true_iff in Hs. destruct Hs as [Hp Hd].
     exact (sim_SAssign rt mt y v Hp Hd im ss s ss' fuel Hsim Hc He).
   - (* define m ...: the CONSTANT instruction does nothing at run time *)
@@ -1129,7 +1316,7 @@ Proof. reflexivity. Qed.
 Lemma atom_signal st fuel ss sig ss' : simple_atom st = true -> Sem.exec rt mt fuel false ss st = ROk sig ss' -> sig = SigNormal.
 Proof.
   intros Hs He. destruct fuel as [|fuel]; [discriminate|].
-  destruct st as [r v|m|ops|ops|ops| | | | |y v| | | | | | | |[v|]|[v|]| |]; cbn [simple_atom] in Hs; try discriminate.
+  destruct st as [r v|m|ops|ops|ops| |n| |ps|y v| | | | | | | |[v|]|[v|]| |]; cbn [simple_atom] in Hs; try discriminate.
   - rewrite exec_reg in He. destruct (eval_rval rt mt fuel false ss v); cbn [sbind] in He; try discriminate. injection He as He _. auto.
   - rewrite exec_units in He. destruct (rf_switch_unit_mode _ _); [injection He as He _; auto|discriminate].
   - rewrite exec_set in He. destruct (do_wait ss) as [[] sa| |]; cbn [sbind] in He; try discriminate.
@@ -1138,7 +1325,11 @@ Proof.
     destruct (exec_ops rt mt fuel false sa false ops) as [[] sb| |]; cbn [sbind] in He; try discriminate. injection He as He _. auto.
   - rewrite (exec_power rt mt fuel ss false ops) in He. cbv zeta in He. destruct (do_wait _) as [[] sa| |]; cbn [sbind] in He; try discriminate.
     destruct (exec_ops rt mt fuel false sa false ops) as [[] sb| |]; cbn [sbind] in He; try discriminate. injection He as He _. auto.
+  - rewrite exec_get in He. destruct (eval_rval rt mt fuel false ss n) as [x sa| |]; cbn [sbind] in He; try discriminate.
+    destruct (dev_step sa _) as [[] sb| |]; cbn [sbind] in He; try discriminate. injection He as He _. auto.
   - rewrite exec_wait in He. destruct (do_wait ss) as [[] sa| |]; cbn [sbind] in He; try discriminate. injection He as He _. auto.
+  - rewrite exec_timeat in He. destruct (map (pat_of mt) ps) as [|[p|] rest]; try discriminate.
+    destruct (forallb _ rest); [injection He as He _; auto|discriminate].
   - rewrite exec_assign in He. destruct (eval_rval rt mt fuel false ss v); cbn [sbind] in He; try discriminate. injection He as He _. auto.
   - injection He as He _. auto.
   - rewrite exec_print in He. destruct (eval_rval rt mt fuel false ss v); cbn [sbind] in He; try discriminate. injection He as He _. auto.
@@ -1232,6 +1423,7 @@ Lemma c_ops_no_routine op ops : not_routine (I0 op) = true -> simple_ops mt ops 
 Proof.
   intros Hop Hs. destruct ops as [| |l]; cbn [simple_ops] in Hs; try discriminate.
   - rewrite c_ops_all. cbn [forallb]. rewrite Hop. reflexivity.
+  - rewrite c_ops_default. cbn [forallb]. rewrite Hop. reflexivity.
   - induction l as [|o r IH]; [reflexivity|]. cbn [forallb] in Hs. apply andb_true_iff in Hs. destruct Hs as [Ho Hr].
     destruct o as [k n| | |]; cbn [simple_opnd] in Ho; try discriminate.
     rewrite c_ops_cons, !forallb_app, (IH Hr). cbn [forallb]. rewrite Hop. destruct n; reflexivity.
@@ -1239,14 +1431,20 @@ Qed.
 
 Lemma atom_no_routine st : simple_atom mt st = true -> forallb not_routine (c_stmt rt mt false None st) = true.
 Proof.
-  intros Hs. destruct st as [r v|m|ops|ops|ops| | | | |y v| | | | | | | |[v|]|[v|]| |]; cbn [simple_atom] in Hs; try discriminate.
+  intros Hs. destruct st as [r v|m|ops|ops|ops| |n| |ps|y v| | | | | | | |[v|]|[v|]| |]; cbn [simple_atom] in Hs; try discriminate.
   - apply andb_true_iff in Hs. destruct Hs as [Hs Hd]. apply andb_true_iff in Hs. destruct Hs as [_ Hp].
     change (c_stmt rt mt false None (SReg r v)) with (c_rval rt mt v (DReg r)). apply c_rval_no_routine; assumption.
   - reflexivity.
   - rewrite c_set, forallb_app, (c_ops_no_routine OC_COLOR ops eq_refl Hs). reflexivity.
   - rewrite (c_power rt mt true ops), !forallb_app, (c_ops_no_routine OC_POWER ops eq_refl Hs). reflexivity.
   - rewrite (c_power rt mt false ops), !forallb_app, (c_ops_no_routine OC_POWER ops eq_refl Hs). reflexivity.
+  - change (c_stmt rt mt false None (SGet n)) with (c_rval rt mt n (DReg R_RESULT) ++ [I2 OC_MOVE (PReg R_RESULT) (PReg R_NAME); I0 OC_GET_COLOR]).
+    rewrite forallb_app, (c_rval_no_routine n (DReg R_RESULT) Hs (plain_ok_result mt n Hs)). reflexivity.
   - reflexivity.
+  - destruct ps as [|t r]; [reflexivity|].
+    change (c_stmt rt mt false None (STimeAt (t :: r))) with
+      (I2 OC_TIME_PATTERN (PSetOp SO_INIT) (pat_param mt t) :: map (fun q => I2 OC_TIME_PATTERN (PSetOp SO_UNION) (pat_param mt q)) r).
+    cbn [forallb]. clear Hs. induction r as [|q r IH]; [reflexivity|]. cbn [map forallb]. exact IH.
   - apply andb_true_iff in Hs. destruct Hs as [Hp Hd].
     change (c_stmt rt mt false None (SAssign y v)) with (c_rval rt mt v (DVar y)). apply c_rval_no_routine; assumption.
   - reflexivity.
